@@ -11,7 +11,7 @@ namespace verif {
 const PropertyInfo kInfo = {
     "C11", 16, 8, 0,
     "tape -> payload size from {0,1,63,64,65,127,128,4096,65536} or uniform <= 700; chunk id random or with an 0xFFFFFFFF / 0xFEFFFFFF prefix (ChaCha20 counter near wrap); "
-    "shard threshold/total over 1..255 with boundary bias (1/1, t=n, 254, 255); TTL 30..3600 s. A publisher node stores the payload; a fresh second node imports the replica. "
+    "shard threshold/total over 1..255 with boundary bias (1/1, t=n, 254, 255); TTL 30..3600 s. A publisher node stores the payload (in a third of the cases the id already holds other content from an earlier store); a fresh second node imports the replica. "
     "One corruption per case: none, replica bit flip at a generated offset / truncate / extend / swap with another chunk's ciphertext / empty, manifest hash / nonce / chunk id "
     "bit flip, one shard value flipped (inside or beyond the first t), shard index moved to an unused index, threshold +-1, two shards swapped. Oracle: fetch_chunk on the "
     "publisher == payload; stored bytes == reference ChaCha20(payload) under key = reference GF(256) interpolation of the manifest shares, manifest nonce, counter LE32(id[0..3]); "
@@ -89,6 +89,13 @@ void run_case(Ctx& c) {
     Config sc = pc;
     sc.identity_seed = 111;
     Node pub(vnode::make_id(201, 0x11), pc);
+    // a third of the cases: the same chunk id already holds other content (stored earlier with a longer or shorter lifetime);
+    // the second store re-encrypts under a fresh key and must fully replace what the first one published
+    if (t.h(9) % 3 == 0) {
+        auto earlier = Prng(t.h32(4) ^ 0xE1).bytes(1 + t.h(9) % 90);
+        pub.store_chunk(id, earlier, seconds((t.h(9) & 0x40) ? 3600 : 30));
+        c.nt("same_id_stored_before_with_other_content");
+    }
     auto manifest = pub.store_chunk(id, payload, seconds(30 + t.h16(10) % 3571));
 
     // (1) local lookup
